@@ -46,6 +46,9 @@ manifest = {
     "engines": [
         {"name": "lean-proofs", "path": "lean/", "serves_properties": [c["property_id"] for c in checks],
          "kind_free_text": "Lean 4 models (lean/Model), property theorems (lean/Props) and lemmas (lean/Proofs); built and axiom-audited on every run"},
+        {"name": "py2lean-bridge", "path": "tools/py2lean.py",
+         "serves_properties": [c["property_id"] for c in checks if any(str(m).endswith("Gen") for m in ([REGISTRY[c["property_id"]]["module"]] if isinstance(REGISTRY[c["property_id"]]["module"], str) else REGISTRY[c["property_id"]]["module"]))],
+         "kind_free_text": "translator: re-generates lean/Gen/*.lean from the Python kernels of /repo's working tree on every run (tools/py2lean.py, tools/py2lean_layout.py; semantics in lean/PyLib.lean); lean/Bridge/*.lean proves the generated definitions equal to the model and exception-free; lean/Props/*Gen.lean restate the property theorems over the generated code"},
         {"name": "correspondence", "path": "harness/", "serves_properties": [c["property_id"] for c in checks],
          "kind_free_text": "differential harness: compiled Lean model driver (lean/Driver) vs the real pydsdl from /repo on generated inputs, plus independent property oracles and failing-input search"},
     ],
